@@ -141,6 +141,11 @@ def compare_case(R, p, dtype, cls, args, deep=False):
         if isinstance(ierr, ValueError) and "math domain error" in str(ierr) and name in SELECTORS | {"ws2doptvplc_tyx"}:
             R.count("interpreted_log0_excluded")
             return
+        if isinstance(ierr, OverflowError) and "out of bounds for int" in str(ierr):
+            # the curve leaves the output's integer range (outside every smoother claim): NumPy refuses the store,
+            # nopython code wraps; counted, not compared
+            R.count("interpreted_int_store_overflow_excluded")
+            return
         if isinstance(comp, Exception) and type(comp) is type(ierr):
             R.count("both_raise_same")
             return
